@@ -30,6 +30,9 @@ func elemCorpus(tier string) []ElemInst {
 	add(Slice(B("int")), false, false)
 	add(leaf, true, false)
 	add(Slice(B("uint8")), false, false) // []byte elements: the plugins have bytes.* shortcuts for this shape
+	uv := NStruct("UEqV", F("A", B("int")), F("B", B("int")))
+	uv.UserEqualVal = true
+	add(uv, false, false) // a ==-comparable element type with its own Equal (ignores B): membership is by that method
 	if tier != "quick" {
 		add(B("float64"), true, true)
 		add(B("uint8"), true, true)
@@ -147,7 +150,15 @@ func genC14Elem(g *Gen, e ElemInst, tier string) []HarnessSrc {
 			"\tfirst := len(out) == len(exp)\n\tfor i := 0; i < len(out) && i < len(exp); i++ {\n\t\tif !%s {\n\t\t\tfirst = false\n\t\t}\n\t}\n\tvx.Assert(first, \"first occurrences in order\")\n",
 			LT.Expr(), g.elemSame(e, "out[i]", "exp[i]"))
 	}
-	out = append(out, h("VX_C14_unique_"+id, "unique", uq))
+	if E.K == "named" && E.UserEqualVal {
+		// known finding F32: Unique over a ==-comparable element type goes through a map (deriveKeys(deriveSet(list))),
+		// i.e. is unique by ==, not by the element type's own Equal. There is no carved twin: the whole harness is the region.
+		kf := h("VX_C14_unique_"+id+"__KF_F32", "unique", uq)
+		kf.KF = "F32"
+		out = append(out, kf)
+	} else {
+		out = append(out, h("VX_C14_unique_"+id, "unique", uq))
+	}
 	if E.K == "ptr" && E.Elem.K == "named" && E.Elem.Name == "Leaf" {
 		// longer lists over a three-value element domain: reaches the states of the in-place compaction
 		// where an earlier duplicate has been dropped and a kept element's original slot overwritten
